@@ -139,7 +139,9 @@ def route(tokeniser: Any) -> list[Route]:
             nh: Any
             attribute: Any
             nh, attribute = handler(tokeniser)
-            nexthop = nh
+            # "redirect 65000:1" has no next-hop to give, and must not undo the one "copy 10.0.0.1" set
+            if nh is not IP.NoNextHop:
+                nexthop = nh
             attributes.add(attribute)
         elif operation == ActionOperation.NOP:
             pass  # yes nothing to do !
